@@ -361,6 +361,12 @@ func (s *Scanner) Scan() (Token, error) {
 		}
 	}
 
+	// A character that is not a token by itself is passed to the parser as its code point. Code points of the
+	// private use area coincide with the token numbers generated by goyacc and must not be taken for those tokens.
+	if token == ch && yyPrivate <= int(ch) && int(ch) < yyPrivate+len(yyTok2) {
+		token = unicode.ReplacementChar
+	}
+
 	return Token{Token: int(token), Literal: literal, Quoted: quoted, Line: line, Char: char, SourceFile: s.sourceFile}, err
 }
 
